@@ -155,3 +155,88 @@ func Harness_C06_RestoreFilter() {
 	}
 	verif.Reached()
 }
+
+// Harness_C06_RescaleTwice: a history that itself contains a rescaling. One database owning key
+// groups [0,4) writes keys of every group and compacts them into a base table, checkpoints; two
+// databases [0,2) and [2,4) are restored from it (both reference the shared table); each may
+// delete one of its keys, overwrite another and flush/compact (by shape); both checkpoint; one
+// database [0,4) is restored from the two handles in either order. It must hold exactly the
+// latest value of every key - a key deleted by its owner stays deleted although the table both
+// instances inherited still carries its old version.
+func Harness_C06_RescaleTwice() {
+	verif.FixedRand(3, 1, 4, 1, 5, 9, 2, 6)
+	verif.Abstract("bloom.Filter")
+	root := storage.NewMemoryFilesystem()
+	opts := func(fs storage.FileSystem, own kv.DataOwnership) DBOptions {
+		return DBOptions{FileSystem: fs, MemTableSize: 20, TargetFileSize: 1 << 16, L0TableNumCompactionTrigger: 2, DataOwnership: own}
+	}
+	want := map[string][]byte{}
+	var keys [][]byte
+	first := Open(opts(root.WithWorkingDir("gen0"), &verifOwner{0, 4}), nil)
+	for g := 0; g < 4; g++ {
+		k := verifGKey(g, 'a')
+		v := verif.Bytes("v", 1)
+		first.Put(k, v)
+		keys = append(keys, k)
+		want[string(k)] = v
+	}
+	verif.Assert(first.WaitOnTasks() == nil, "background-tasks-succeed")
+	h0, err := first.Checkpoint(5)()
+	verif.Assert(err == nil, "checkpoint-succeeds")
+	verif.Assert(first.Close() == nil, "close-succeeds")
+
+	ranges := [][2]int{{0, 2}, {2, 4}}
+	var handles []recovery.CheckpointHandle
+	for i, r := range ranges {
+		own := &verifOwner{r[0], r[1]}
+		db := Open(opts(root.WithWorkingDir([]string{"gen1a", "gen1b"}[i]), own), []recovery.CheckpointHandle{h0})
+		if verif.Choose("owner-deletes-a-key", 2) == 1 {
+			k := verifGKey(r[0], 'a')
+			db.Delete(k)
+			want[string(k)] = nil
+		}
+		// further writes so that the delete is flushed and - by shape - compacted into the base level
+		extra := verif.Choose("further-writes", 4)
+		for w := 0; w < extra; w++ {
+			k := verifGKey(r[1]-1, byte('b'+w))
+			v := verif.Bytes("v", 1)
+			db.Put(k, v)
+			if _, seen := want[string(k)]; !seen {
+				keys = append(keys, k)
+			}
+			want[string(k)] = v
+		}
+		verif.Assert(db.WaitOnTasks() == nil, "background-tasks-succeed")
+		h, err := db.Checkpoint(6)()
+		verif.Assert(err == nil, "checkpoint-after-rescale-succeeds")
+		handles = append(handles, h)
+		verif.Assert(db.Close() == nil, "close-succeeds")
+	}
+	if verif.Choose("recorded-order", 2) == 1 {
+		handles[0], handles[1] = handles[1], handles[0]
+	}
+	last := Open(opts(root.WithWorkingDir("gen2"), &verifOwner{0, 4}), handles)
+	for _, k := range keys {
+		e, err := last.Get(k)
+		if w := want[string(k)]; w == nil {
+			verif.Assert(err == kv.ErrNotFound || (err == nil && e.IsDelete()), "key-deleted-by-its-owner-stays-deleted-after-the-second-rescale")
+		} else {
+			verif.Assert(err == nil && !e.IsDelete() && bytes.Equal(e.Value(), w), "key-has-its-latest-value-after-the-second-rescale")
+		}
+	}
+	var scanErr error
+	got := map[string][]byte{}
+	for e := range last.ScanPrefix(nil, &scanErr) {
+		got[string(e.Key())] = e.Value()
+	}
+	verif.Assert(scanErr == nil, "scan-no-error")
+	for _, k := range keys {
+		g, present := got[string(k)]
+		if w := want[string(k)]; w == nil {
+			verif.Assert(!present, "deleted-key-not-in-scan-after-the-second-rescale")
+		} else {
+			verif.Assert(present && bytes.Equal(g, w), "scan-has-the-latest-value-after-the-second-rescale")
+		}
+	}
+	verif.Reached()
+}
